@@ -402,6 +402,28 @@ fn run_inner(case: &CfgCase, st: &mut CStats) -> Result<(), Violation> {
         let inserted: BTreeSet<u32> = case.ops.iter().filter_map(|o| if let Op::Insert { k, .. } = o { Some(*k) } else { None }).collect();
         if n == 0 || inserted.len() as u64 <= n {
             diff("Cache::new(n)", Ctor::Builder, vec![Call::MaxCapacity(n)], None, &with_adv, st)?;
+        } else {
+            // The capacity binds: which entries stay depends on the random hashes of both
+            // caches (collisions in the popularity sketch, about 1e-7 per decision with these
+            // few keys). A difference is reported only if it is systematic: four caches made
+            // by new(n) agree with each other, four made by the builder agree with each
+            // other, and the two groups differ.
+            let c2 = vec![Call::MaxCapacity(n)];
+            let mut ta: Vec<Vec<String>> = Vec::new();
+            let mut tb: Vec<Vec<String>> = Vec::new();
+            for _ in 0..4 {
+                let (reg_a, reg_b) = (Reg::new(), Reg::new());
+                if let (Built::Ok(mut a), Built::Ok(mut b)) = (build(case.kind, case.ctor, calls, None, &reg_a), build(case.kind, Ctor::Builder, &c2, None, &reg_b)) {
+                    ta.push(observe(&mut a, &with_adv, sync));
+                    tb.push(observe(&mut b, &with_adv, sync));
+                }
+            }
+            st.differentials += 1;
+            if ta.len() == 4 && ta.iter().all(|t| *t == ta[0]) && tb.iter().all(|t| *t == tb[0]) && ta[0] != tb[0] {
+                let i = ta[0].iter().zip(tb[0].iter()).position(|(x, y)| x != y).unwrap_or(0);
+                v17!("Cache::new({n}) and builder().max_capacity({n}).build() behave differently (four caches of each kind, each group unanimous): `{}` vs `{}` (observation #{i})", ta[0].get(i).cloned().unwrap_or_default(), tb[0].get(i).cloned().unwrap_or_default());
+            }
+            st.differential_with_eviction = true;
         }
     }
     Ok(())
